@@ -12,6 +12,11 @@
 #include "xpair.h"
 
 #include <algorithm>
+#include <arpa/inet.h>
+#include <netinet/in.h>
+#include <openssl/err.h>
+#include <openssl/ssl.h>
+#include <sys/socket.h>
 #include <sys/stat.h>
 
 using namespace vf;
@@ -239,11 +244,130 @@ public:
     size_t max_steps() override { return 1; }
     void setup() override { World::get(); g_pki.init(); }
 
+
+    // ---- a raw OpenSSL peer that presents no certificate (XCM peers always present one)
+    Outcome raw_peer_without_cert(Case &c, Dec &cfg)
+    {
+        c.cls("raw-peer-without-certificate");
+        bool xcm_connects = cfg.flag();          // XCM side: connecting socket with tls.client=false, or accepted socket
+        int auth = (int)cfg.ch(3) == 0 ? 0 : 1;   // XCM side's tls.auth
+        bool btls = cfg.flag();
+        World &w = World::get();
+        std::string proto = btls ? "btls" : "tls";
+        Ep x, srv;
+        x.tag = 2; srv.tag = 30;
+        struct Guard { Ep &a, &b; ~Guard() { x_close(a); x_close(b); } } guard{x, srv};
+        int raw = -1, lfd = -1;
+        struct xcm_attr_map *m = xcm_attr_map_create();
+        xcm_attr_map_add_bool(m, "xcm.blocking", false);
+        if (btls) xcm_attr_map_add_str(m, "xcm.service", "bytestream");
+        xcm_attr_map_add_bool(m, "tls.auth", auth);
+        xcm_attr_map_add_bin(m, "tls.cert", g_pki.leaf[CK_VALID]->cert_pem.data(), g_pki.leaf[CK_VALID]->cert_pem.size());
+        xcm_attr_map_add_bin(m, "tls.key", g_pki.leaf[CK_VALID]->key_pem.data(), g_pki.leaf[CK_VALID]->key_pem.size());
+        if (auth) xcm_attr_map_add_bin(m, "tls.tc", g_pki.A->cert_pem.data(), g_pki.A->cert_pem.size());
+        (void)w;
+        if (xcm_connects) {
+            xcm_attr_map_add_bool(m, "tls.client", false); // role reversal: the connecting side is the TLS server
+            lfd = socket(AF_INET, SOCK_STREAM | SOCK_NONBLOCK, 0);
+            struct sockaddr_in a;
+            memset(&a, 0, sizeof(a));
+            a.sin_family = AF_INET;
+            a.sin_addr.s_addr = htonl(INADDR_LOOPBACK);
+            bind(lfd, (struct sockaddr *)&a, sizeof(a));
+            listen(lfd, 4);
+            socklen_t l = sizeof(a);
+            getsockname(lfd, (struct sockaddr *)&a, &l);
+            std::string addr = proto + ":127.0.0.1:" + std::to_string(ntohs(a.sin_port));
+            x.s = call(x, [&] { return xcm_connect_a(addr.c_str(), m); });
+            int e = errno;
+            xcm_attr_map_destroy(m);
+            if (!x.s) { close(lfd); return failf("setup: xcm_connect_a(%s) with tls.client=false: %s", addr.c_str(), errname(e)); }
+            x.closed = false;
+            for (int i = 0; i < 2000 && raw < 0; i++) { raw = accept4(lfd, nullptr, nullptr, SOCK_NONBLOCK); if (raw < 0) { x_finish(x); usleep(200); } }
+            close(lfd);
+            VF_CHECK(raw >= 0, "setup: raw accept failed");
+        } else {
+            std::string addr = proto + ":127.0.0.1:0";
+            srv.s = call(srv, [&] { return xcm_server_a(addr.c_str(), m); });
+            int e = errno;
+            xcm_attr_map_destroy(m);
+            VF_CHECK(srv.s != nullptr, "setup: xcm_server_a: %s", errname(e));
+            srv.closed = false;
+            const char *la = call(srv, [&] { return xcm_local_addr(srv.s); });
+            int port = atoi(strrchr(la, ':') + 1);
+            raw = socket(AF_INET, SOCK_STREAM | SOCK_NONBLOCK, 0);
+            struct sockaddr_in a;
+            memset(&a, 0, sizeof(a));
+            a.sin_family = AF_INET;
+            a.sin_addr.s_addr = htonl(INADDR_LOOPBACK);
+            a.sin_port = htons(port);
+            connect(raw, (struct sockaddr *)&a, sizeof(a));
+        }
+        // the raw peer: a TLS client that trusts A and has no certificate of its own
+        SSL_CTX *ctx = SSL_CTX_new(TLS_client_method());
+        BIO *b = BIO_new_mem_buf(g_pki.A->cert_pem.data(), (int)g_pki.A->cert_pem.size());
+        X509 *ca = PEM_read_bio_X509(b, nullptr, nullptr, nullptr);
+        BIO_free(b);
+        X509_STORE_add_cert(SSL_CTX_get_cert_store(ctx), ca);
+        X509_free(ca);
+        SSL_CTX_set_verify(ctx, SSL_VERIFY_PEER, nullptr);
+        SSL *ssl = SSL_new(ctx);
+        SSL_set_fd(ssl, raw);
+        SSL_set_connect_state(ssl);
+        bool peer_done = false, peer_failed = false, x_ready = false;
+        int x_err = 0;
+        bool x_got = false, peer_sent = false, peer_got = false;
+        uint8_t rb[64];
+        for (int i = 0; i < 3000; i++) {
+            if (!xcm_connects && !x.s) {
+                sh_enter(x.tag, 1);
+                x.s = xcm_accept(srv.s);
+                int e = errno;
+                sh_leave();
+                if (x.s) x.closed = false;
+                else if (e != EAGAIN) x_err = e;
+            }
+            if (!peer_done && !peer_failed) {
+                int rc = SSL_do_handshake(ssl);
+                if (rc == 1) peer_done = true;
+                else { int se = SSL_get_error(ssl, rc); if (se != SSL_ERROR_WANT_READ && se != SSL_ERROR_WANT_WRITE) peer_failed = true; }
+            }
+            // a well-formed XCM frame (4-byte length + payload) on tls, plain bytes on btls
+            if (peer_done && !peer_sent) { static const char frame[] = "\0\0\0\x14" "peer-data-0123456789"; if (SSL_write(ssl, btls ? frame + 4 : frame, btls ? 20 : 24) > 0) peer_sent = true; }
+            if (peer_done && !peer_got) { int n = SSL_read(ssl, rb, sizeof(rb)); if (n > 0) peer_got = true; }
+            ERR_clear_error();
+            if (x.s && !x_err) {
+                if (!x_ready) { int rc = x_finish(x); if (rc == 0) x_ready = true; else if (errno != EAGAIN) x_err = errno; }
+                int rc = x_receive(x, rb, sizeof(rb));
+                if (rc > 0) x_got = true; else if (rc == 0) x_err = x_err ? x_err : EPIPE; else if (errno != EAGAIN) x_err = x_err ? x_err : errno;
+                if (x_ready && !x_err) x_send(x, "hello", 5);
+            }
+            if (x_err || (x_ready && x_got) || peer_failed) { if (i > 50) break; }
+            usleep(200);
+        }
+        SSL_free(ssl);
+        SSL_CTX_free(ctx);
+        close(raw);
+        c.log("XCM %s socket as TLS server, tls.auth=%d, raw TLS client without certificate: xcm ready=%d error=%s got-data=%d; peer handshake %s", xcm_connects ? "connecting (tls.client=false)" : "accepted", auth, x_ready,
+              x_err ? errname(x_err) : "-", x_got, peer_done ? "done" : peer_failed ? "failed" : "pending");
+        if (auth) {
+            VF_CHECK(!x_ready, "C09: FAIL-OPEN: tls.auth is on and the peer presented no certificate at all, yet xcm_finish succeeded (%s socket acting as TLS server)", xcm_connects ? "connecting" : "accepted");
+            VF_CHECK(!x_got, "C09: FAIL-OPEN: tls.auth is on and the peer presented no certificate, yet its data was delivered to the application");
+            VF_CHECK(!peer_got, "C09: FAIL-OPEN: application data was transmitted to a peer that presented no certificate");
+            VF_CHECK(x_err == EPROTO || (!x.s && x_err), "C09: a peer without certificate is reported as %s (want EPROTO)", x_err ? errname(x_err) : "nothing");
+        } else {
+            VF_CHECK(x_ready && x_got, "C09: FAIL-ALWAYS: tls.auth is off, yet a peer without certificate cannot use the connection (ready %d, error %s)", x_ready, x_err ? errname(x_err) : "-");
+        }
+        c.nt(true);
+        return Outcome::pass();
+    }
+
     Outcome run(const Plan &p, Case &c) override
     {
         sh_reset();
         g_case++;
         Dec cfg(p.cfg);
+        if (cfg.ch(12) == 0) return raw_peer_without_cert(c, cfg);
         static const int TPS[] = {TLS, BTLS, UTLS_TLS, TLS};
         int tp = TPS[cfg.ch(4)];
         bool bs = tp == BTLS;
